@@ -184,6 +184,7 @@ def consume(ctx, cases, results, stats, name):
         stats["inputs"] = stats.get("inputs", 0) + r.get("inputs", 0)
         stats["deepest"] = max(stats.get("deepest", 0), r.get("deepest", 0))
         stats["loop_inputs"] = stats.get("loop_inputs", 0) + r.get("loops", 0)
+        stats["shorthand_spellings"] = stats.get("shorthand_spellings", 0) + r.get("spelled", 0)
         for k in r.get("keys", []):
             ctx.distinct.add("rand/" + k)
         for m in r.get("mismatches", []):
